@@ -204,3 +204,14 @@ V('C06', 'neg-rhs-single-early-exit', K, KM + 'extract_filters',
                 if not rc.is_single():
                     return []
                 if True:''', None)
+V('C06', 'revert-elementwise-multi-arg', M, MM + '__infer_func_call',
+  '''    elif any(
+        arg.param_typemod is not qltypes.TypeModifier.SetOfType
+        and cardinality.infer_cardinality(
+            arg.expr, scope_tree=scope_tree, ctx=ctx).is_multi()
+        for arg in ir.args.values()
+    ):
+        # The call is applied element-wise over its non-SET OF
+        # arguments, so a multi argument repeats the results.
+        return DUPLICATE
+''', '', 'C06.R7', 'elementwise-multi-argument')
